@@ -55,8 +55,12 @@ THEOREMS += ['CC.C10_gen_Delta', 'CC.C10_gen_Q', 'CC.C10_gen_cols', 'CC.C10_gen_
     'CC.C10_gen_sources', 'CC.C10_gen_wrapper', 'CC.C10_gen_circuit_values', 'CC.C10_gen_container',
     'CC.C10_gen_mappers_forwarded']
 LEAN_MODULE_EXTRA = list(globals().get('LEAN_MODULE_EXTRA', [])) + ['CC.Properties.C10Gen']
+# round 5: the output rows deliver the report (the former OPEN statement CC.C10_output_rows_statement, proved at full strength)
+THEOREMS += ['CC.C10_rows_potential', 'CC.C10_rows_voltage', 'CC.C10_rows_current', 'CC.C10_output_rows',
+    'CC.C10_rows_report', 'CC.C10_rows_transfer']
+LEAN_MODULE_EXTRA += ['CC.Properties.C10Rows']
 
-OPEN_STATEMENTS = ['CC.C10_output_rows_statement — the voltage and current OUTPUT ROWS (c_row_voltage, c_row_current, d_row_*) give the report read from y = C x + D u: model = generated code (C10_gen_row_*) + correspondence + oracle only']
+OPEN_STATEMENTS = []    # CC.C10_output_rows_statement is now the theorem CC.C10_output_rows (lean/CC/Properties/C10Rows.lean)
 ASSUMPTIONS = [
     'numpy.linalg.inv is a parameter of the model: theorems hold for every pair of matrices with Ã·Ainv = 1 and (DQᵀ Ainv DQ)·S = 1; numpy\'s own inverses are checked against these equations on every case (exact residual ≤ 1e-9)',
     'binary64 arithmetic of numpy agrees with field arithmetic within 1e-9 relative on the dyadic, well-conditioned instances generated (cond < 1e6; others are counted as skipped)',
